@@ -344,9 +344,19 @@ func sameBlockOrder(fn *ssa.Function, a, b string, r *core.Run) bool {
 // allShardsRemovedBefore: a range loop over <x>.Shards whose every iteration calls RemoveShard (or leaves the
 // function), and whose normal exit lies on every path to the call.
 func allShardsRemovedBefore(r *core.Run, f *ssa.Function, call ssa.CallInstruction) bool {
+	isShards := func(t string) bool {
+		return t != "" && strings.HasSuffix(t, ".Shards") && !strings.HasPrefix(t, "phi(") && !strings.HasPrefix(t, "builtin.append(")
+	}
+	return removesAllBefore(r, f, call, isShards, 0)
+}
+
+// removesAllBefore: on every path to the instruction, a loop over a list accepted by isList has run to its exit
+// with a RemoveShard in every iteration — in f itself, or in a transparent helper that f calls with such a list
+// and that does so with its parameter on every path to a success return (f continuing only when it succeeded).
+func removesAllBefore(r *core.Run, f *ssa.Function, at ssa.Instruction, isList func(string) bool, depth int) bool {
 	res := r.Resolver(f)
 	for _, l := range cfgx.Loops(f) {
-		if !rangesField(r, f, l, "Shards") {
+		if !isList(rangedOver(r, f, l)) {
 			continue
 		}
 		rm := map[*ssa.BasicBlock]bool{}
@@ -362,13 +372,69 @@ func allShardsRemovedBefore(r *core.Run, f *ssa.Function, call ssa.CallInstructi
 		if len(rm) == 0 || !cutsAllCycles(l, rm) {
 			continue
 		}
-		// loop exit on every path to the call
+		// loop exit on every path to the instruction
 		exit := cfgx.Edge{From: l.Header, To: l.Header.Succs[1]}
 		if l.Body[l.Header.Succs[1]] {
 			exit = cfgx.Edge{From: l.Header, To: l.Header.Succs[0]}
 		}
-		if cfgx.PathAvoiding(f.Blocks[0], call.Block(), map[cfgx.Edge]bool{exit: true}) == nil {
+		if cfgx.PathAvoiding(f.Blocks[0], at.Block(), map[cfgx.Edge]bool{exit: true}) == nil {
 			return true
+		}
+	}
+	if depth >= 2 {
+		return false
+	}
+	ck := &guard.Checker{P: r.P, Fn: f, Res: res}
+	for _, b := range f.Blocks {
+		for _, ins := range b.Instrs {
+			if ins == at {
+				break
+			}
+			hc, ok := ins.(ssa.CallInstruction)
+			if !ok {
+				continue
+			}
+			h := hc.Common().StaticCallee()
+			if h == nil || h == f || !r.P.Transparent(h) || len(h.Blocks) == 0 {
+				continue
+			}
+			// the helper call lies on every path to the instruction
+			if b != at.Block() && forwardAvoid(f.Blocks[0], map[*ssa.BasicBlock]bool{b: true}, nil, func(x *ssa.BasicBlock) bool { return x == at.Block() }) != nil {
+				continue
+			}
+			for j, a := range hc.Common().Args {
+				if j >= len(h.Params) || !isList(normT(res.Of(a).String())) {
+					continue
+				}
+				pj := fmt.Sprintf("#%d", j)
+				all := true
+				nret := 0
+				for _, hb := range h.Blocks {
+					if !isReturnBlock(hb) || !successReturnIn(r, h, hb) {
+						continue
+					}
+					nret++
+					ret := hb.Instrs[len(hb.Instrs)-1]
+					if !removesAllBefore(r, h, ret, func(t string) bool { return t == pj }, depth+1) {
+						all = false
+					}
+				}
+				if !all || nret == 0 {
+					continue
+				}
+				// a helper that can fail: f goes on to the instruction only after it returned nil
+				sig := h.Signature.Results()
+				if sig.Len() > 0 && isErrorType(sig.At(sig.Len()-1).Type()) {
+					v, isVal := hc.(ssa.Value)
+					if !isVal || sig.Len() != 1 {
+						continue
+					}
+					if ok, _ := ck.MustPass(at.Block(), []guard.Atom{guard.Eq(guard.Exact(res.Of(v).String()), "nil")}); !ok {
+						continue
+					}
+				}
+				return true
+			}
 		}
 	}
 	return false
@@ -457,9 +523,8 @@ func ruleSchedMeta(r *core.Run) {
 // order on every path after the payout — otherwise a later termination refunds the same money again.
 func ruleRefundBooked(r *core.Run) {
 	n := 0
-	for _, f := range r.P.SortedFuncs(r.ConsensusFuncs()) {
-		res := r.Resolver(f)
-		for _, e := range r.Eff.Own[f] {
+	anchorFrames(r, func(f *ssa.Function, fr frame) {
+		for _, e := range r.Eff.Own[fr.Fn] {
 			if e.Kind != "bank.SendCoinsFromModuleToAccount" || len(e.Args) != 3 || e.Args[0].String() != `"market"` {
 				continue
 			}
@@ -467,24 +532,30 @@ func ruleRefundBooked(r *core.Run) {
 				continue // payout to the claiming provider, not an order refund
 			}
 			n++
-			key := core.Key("T-refund-booked", r.KeyName(f), "market refund lowers Order.Amount and is persisted")
-			amt := normT(e.Args[2].String())
-			coin := strings.TrimSuffix(strings.TrimPrefix(amt, "["), "]")
+			key := core.Key("T-refund-booked", r.P.Name(f), "market refund lowers Order.Amount and is persisted")
+			amt := normT(fr.Sub(e.Args[2].String()))
+			coin := byTypeParams(f, strings.TrimSuffix(strings.TrimPrefix(amt, "["), "]"))
 			okDelta := false
 			for _, d := range deltasOf(r, f) {
-				if d.Field == "order/types.Order.Amount" && d.Sign == -1 && normT(res.Of(d.Ins.Val).String()) != "" && strings.HasSuffix(normT(res.Of(d.Ins.Val).String()), ","+coin+")") {
+				if d.Field == "order/types.Order.Amount" && d.Sign == -1 && d.Term != "" && d.Term == coin {
 					okDelta = true
 				}
 			}
-			set := blocksCalling(r, f, fSetOrder)
-			okSet := len(set) > 0 && (set[e.Instr.Block()] || forwardAvoid(e.Instr.Block(), set, nil, isReturnBlock) == nil)
+			// the order is persisted after the payout on every path, in the paying function or an enclosing frame
+			okSet := false
+			fns := fr.Fns(f)
+			for lvl := len(fr.Chain); lvl >= 0 && !okSet; lvl-- {
+				at := fr.At(lvl, e.Instr)
+				set := blocksCalling(r, fns[lvl], fSetOrder)
+				okSet = len(set) > 0 && (set[at.Block()] || forwardAvoid(at.Block(), set, nil, isReturnBlock) == nil)
+			}
 			if okDelta && okSet {
 				r.Discharge("T-refund-booked", key, r.P.Pos(e.Instr.Pos()), "Order.Amount -= refunded coin, and SetOrder follows the payout on every path")
 			} else {
-				r.Violate("T-refund-booked", key, r.P.Pos(e.Instr.Pos()), fmt.Sprintf("%s pays a refund out of the market escrow but does not (in the same function) lower the order's recorded Amount by it and persist the order: the money can be refunded again when the order is terminated", r.P.Name(f)))
+				r.Violate("T-refund-booked", key, r.P.Pos(e.Instr.Pos()), fmt.Sprintf("%s pays a refund out of the market escrow but does not lower the order's recorded Amount by it and persist the order: the money can be refunded again when the order is terminated", r.P.Name(f)))
 			}
 		}
-	}
+	})
 	r.Floor("market_refund_sites", n, 1)
 }
 
